@@ -206,7 +206,7 @@ func c10Dump() (out []string) {
 
 	data, err := os.ReadFile(st.srv.conf.dbFilePath)
 	if err != nil {
-		return append(out, "nofile")
+		return append(append(append(out, "nofile"), c10Answers()...), "file=-")
 	}
 	dl := &dataLeases{}
 	if err = json.Unmarshal(data, dl); err != nil {
@@ -221,6 +221,61 @@ func c10Dump() (out []string) {
 			continue
 		}
 		out = append(out, c10Lease(l)...)
+	}
+
+	// the bytes of the file, for the byte-level model of the encoder
+	return append(append(out, c10Answers()...), "file="+vutil.Hex(string(data)))
+}
+
+// c10Answers asks the real dhcpd.Interface (what dnsforward and the clients
+// container use) about every pool address, every address and hostname in the
+// table or in an index: HostByIP, MACByIP, IPByHost.
+func c10Answers() (out []string) {
+	st := &c10St
+	s := st.s4
+	var iface Interface = st.srv
+
+	ipSet := map[uint32]bool{}
+	for a := st.start; a <= st.stop && a >= st.start; a++ {
+		ipSet[a] = true
+	}
+	hostSet := map[string]bool{}
+	for _, l := range s.leases {
+		ipSet[c10U32(l.IP)] = true
+		if l.Hostname != "" {
+			hostSet[l.Hostname] = true
+		}
+	}
+	for k := range s.ipIndex {
+		ipSet[c10U32(k)] = true
+	}
+	for k := range s.hostsIndex {
+		hostSet[k] = true
+	}
+
+	ips := make([]uint32, 0, len(ipSet))
+	for a := range ipSet {
+		ips = append(ips, a)
+	}
+	slices.Sort(ips)
+	out = append(out, vutil.Itoa(len(ips)))
+	for _, a := range ips {
+		out = append(out, c10Utoa(a), vutil.Hex(iface.HostByIP(c10Addr(a))), vutil.Hex(string(iface.MACByIP(c10Addr(a)))))
+	}
+
+	hosts := make([]string, 0, len(hostSet))
+	for h := range hostSet {
+		hosts = append(hosts, h)
+	}
+	sort.Strings(hosts)
+	out = append(out, vutil.Itoa(len(hosts)))
+	for _, h := range hosts {
+		ip := iface.IPByHost(h)
+		v := uint32(0)
+		if ip.IsValid() {
+			v = c10U32(ip)
+		}
+		out = append(out, vutil.Hex(h), c10Utoa(v))
 	}
 
 	return out
@@ -345,6 +400,10 @@ func c10Run(f []string) []string {
 		if !okOracle {
 			reply[3] = "badOracle"
 		}
+
+		// The last field says which of the repairs prepared in /verif/fixes/c10
+		// the tree under test has (R3, R4); the model runs the matching variant.
+		return append(append(reply, c10Dump()...), "fix="+c10Fix(), "base="+vutil.Itoa(int(st.base.Unix())))
 	case "C10.discover":
 		reply = c10Msg(dhcpv4.MessageTypeDiscover, net.HardwareAddr(vutil.Unhex(f[1])), 0, false, 0, 0, "")
 	case "C10.request":
@@ -378,6 +437,21 @@ func c10Run(f []string) []string {
 var c10RawHosts = []string{
 	"alpha", "Alpha", "beta", "gamma", "my host", "my-host", "bad..name", "-x-", "a.b", "!!!", "caf\xc3\xa9",
 	"\xff\xfe", strings.Repeat("l", 70), "x_y", "UPPER.Case", "trailing.", "9", "delta",
+}
+
+// c10FixDefault is the code level of /repo that the model has as a switch: "11" =
+// 410da26 (R3: commitLease keeps generated hostnames unique) and 2820039 (R4:
+// ResetLeases leaves unnamed leases unnamed) are in.  The harness reports it with
+// every reset line and the driver runs that variant of the model; C10_FIX ("00",
+// "10", "01") makes the model follow a scratch tree without one of them.
+const c10FixDefault = "11"
+
+func c10Fix() string {
+	if v := os.Getenv("C10_FIX"); len(v) == 2 {
+		return v
+	}
+
+	return c10FixDefault
 }
 
 func c10MAC(i int) string {
@@ -476,11 +550,26 @@ func c10Gen(r *rand.Rand, emit0 vutil.Emit) {
 				}
 			}
 		}
+		// Some blocks have more than 12 leases, most of them with equal (empty)
+		// hostnames: writeDB's slices.SortFunc is an insertion sort only up to 12
+		// records, beyond that the order of equal names in the file (hence the
+		// order of the table after a restart) is whatever pdqsort leaves.
+		big := !probe && mask != 28 && r.IntN(14) == 0
+		if big {
+			size = uint32(13 + r.IntN(8))
+			stop = start + size - 1
+			if gw >= start && gw <= stop {
+				gw = stop + 1
+			}
+		}
 		lt := vutil.Pick(r, []uint32{10, 60, 3600})
 
 		nmac := 3 + r.IntN(5)
 		if probe {
 			nmac = 5 + r.IntN(3)
+		}
+		if big {
+			nmac = 14 + r.IntN(7)
 		}
 		macs := make([]string, nmac)
 		for i := range macs {
@@ -557,6 +646,17 @@ func c10Gen(r *rand.Rand, emit0 vutil.Emit) {
 		if c10St.s4 == nil {
 			// rejected: the block ends with the verdict
 			continue
+		}
+		if big {
+			for _, m := range macs {
+				emit("C10.discover", vutil.Hex(m))
+				if r.IntN(4) == 0 {
+					if l := c10Lookup(m); l != nil {
+						emit("C10.request", vutil.Hex(m), c10Utoa(c10SelfIP), "1", c10Utoa(c10U32(l.IP)), "0", vutil.Hex(pickHost()))
+					}
+				}
+			}
+			emit("C10.restart")
 		}
 		if probe {
 			// every client asks for an address and confirms it: the pool runs out
